@@ -1199,6 +1199,19 @@ example : Evolves (liveQ.view (fun _ => 600) (fun _ => true))
     (by decide)
 
 set_option maxRecDepth 16000 in
+/-- the hypotheses of `respondLive_lastEnds` are satisfiable (the live example above: real encoding, every
+report 600 bytes) -/
+example : readCfg.arrOpen ≤ readCfg.evOpen ∧
+    ∀ e, (liveReq.onQueue (fun _ => 600) (fun _ => true) liveQ).events = some e →
+      ∀ b ∈ e.buf :: liveBufs (fun _ => 600) (fun _ => true) liveQ liveSched, BufFits readCfg e b := by
+  refine ⟨by decide, ?_⟩
+  intro e he
+  injection he with he
+  subst he
+  unfold BufFits
+  decide
+
+set_option maxRecDepth 16000 in
 /-- **why termination needs the finite-schedule assumption**: a producer that pushes one more matching
 event per round trip keeps a Read alive for as long as it goes on — here 6 scheduled changes, 8 messages
 (the answer over the snapshot has 2) -/
